@@ -105,7 +105,8 @@
 )]
 
 use crate::base::iana::Rcode;
-use crate::base::opt::{AllOptData, ExtendedError};
+use crate::base::message_builder::AdditionalBuilder;
+use crate::base::opt::{AllOptData, ExtendedError, OptRecord};
 use crate::base::{
     Message, MessageBuilder, ParsedName, Rtype, StaticCompressor,
 };
@@ -597,6 +598,43 @@ fn is_dnssec(rtype: Rtype) -> bool {
         || rtype == Rtype::NSEC3
 }
 
+/// Add a copy of the OPT record of the upstream's response to a message,
+/// followed by an `ExtendedError` option if there is one.
+///
+/// The options of the upstream may fill the OPT record to the point where
+/// the extended error does not fit any more. In that case the record is
+/// added without it.
+fn copy_opt_with_ede(
+    opt: &OptRecord<Bytes>,
+    ede: Option<&ExtendedError<Vec<u8>>>,
+    target: &mut AdditionalBuilder<StaticCompressor<Vec<u8>>>,
+) -> Result<(), Error> {
+    let mut push = |ede: Option<&ExtendedError<Vec<u8>>>| {
+        target.opt(|ob| {
+            ob.set_dnssec_ok(opt.dnssec_ok());
+            // XXX something is missing ob.set_rcode(opt.rcode());
+            ob.set_udp_payload_size(opt.udp_payload_size());
+            ob.set_version(opt.version());
+            for o in opt.opt().iter() {
+                // Options the upstream sent in a form we cannot parse
+                // are dropped.
+                let Ok(x): Result<AllOptData<_, _>, _> = o else {
+                    continue;
+                };
+                ob.push(&x)?;
+            }
+            if let Some(ede) = ede {
+                ob.push(ede)?;
+            }
+            Ok(())
+        })
+    };
+    if ede.is_some() && push(ede).is_ok() {
+        return Ok(());
+    }
+    push(None).map_err(|_| Error::OptTooLong)
+}
+
 /// Return a new message that adds an `ExtendedError` option to an existing
 /// message.
 fn add_opt(
@@ -648,24 +686,7 @@ fn add_opt(
     }
 
     if let Some(opt) = msg.opt() {
-        target
-            .opt(|ob| {
-                ob.set_dnssec_ok(opt.dnssec_ok());
-                // XXX something is missing ob.set_rcode(opt.rcode());
-                ob.set_udp_payload_size(opt.udp_payload_size());
-                ob.set_version(opt.version());
-                for o in opt.opt().iter() {
-                    // Options the upstream sent in a form we cannot parse
-                    // are dropped.
-                    let Ok(x): Result<AllOptData<_, _>, _> = o else {
-                        continue;
-                    };
-                    ob.push(&x).expect("should not fail");
-                }
-                ob.push(&ede).expect("should not fail");
-                Ok(())
-            })
-            .expect("should not fail");
+        copy_opt_with_ede(&opt, Some(&ede), &mut target)?;
     }
 
     let result = target.as_builder().clone();
@@ -699,26 +720,7 @@ fn serve_fail(
     let mut target = target.additional();
 
     if let Some(opt) = msg.opt() {
-        target
-            .opt(|ob| {
-                ob.set_dnssec_ok(opt.dnssec_ok());
-                // XXX something is missing ob.set_rcode(opt.rcode());
-                ob.set_udp_payload_size(opt.udp_payload_size());
-                ob.set_version(opt.version());
-                for o in opt.opt().iter() {
-                    // Options the upstream sent in a form we cannot parse
-                    // are dropped.
-                    let Ok(x): Result<AllOptData<_, _>, _> = o else {
-                        continue;
-                    };
-                    ob.push(&x).expect("should not fail");
-                }
-                if let Some(ede) = opt_ede {
-                    ob.push(&ede).expect("should not fail");
-                }
-                Ok(())
-            })
-            .expect("should not fail");
+        copy_opt_with_ede(&opt, opt_ede.as_ref(), &mut target)?;
     }
 
     let result = target.as_builder().clone();
